@@ -29,7 +29,7 @@ use std::sync::Mutex;
 pub const META: PropertyMeta = PropertyMeta {
     id: "C15",
     level: "exploration",
-    rule: "case = (entry point, seed type + entropy, optional second seed, mutation list, exhaustive-truncation flag); the seed is the valid encoding of a value built by the C14 generators for the entry point's own type (or a related type); mutations: bit flip, byte set, insert, delete, truncate, length-field edit (a u32 that looks like a length, or any offset, overwritten with 0, 1, v-1, v+1, remaining+1, 2^24, 2^24+1, 2^31, 2^32-1), splice with a second seed, tag substitution, or a short random string (<= 64 B) instead of a seed; when the flag is set and the seed is <= 2 KiB every proper prefix is decoded as well. Exhaustive sub-checks: every u16 kind tag for the four event decoders and EventRecord::decode_event (each tag with an empty body, a random body and the bodies of two valid events) and every u8 value of the leading tag byte of Cipher, KeyDerivation, Comparison, Secret, SecretMeta, SharedAccess, AeadPack, FileContent, SecretSigner. Non-trivial = the input differs from the unmutated seed and either its first structural bytes (1 byte; 2 for events; 8 for vault/header) are intact or the decoder returned a value. Distinct = distinct case.",
+    rule: "case = (entry point, seed type + entropy, optional second seed, mutation list); the seed is the valid encoding of a value built by the C14 generators for the entry point's own type (or a related type); mutations: bit flip, byte set, insert, delete, truncate, length-field edit (a u32 that looks like a length, or any offset, overwritten with 0, 1, v-1, v+1, remaining+1, 2^24, 2^24+1, 2^31, 2^32-1), splice with a second seed, tag substitution, or a short random string (<= 64 B) instead of a seed. Enumerated sub-checks: truncate/<entry> decodes every proper prefix of valid encodings <= 2 KiB (file-level readers: <= 768 B in the quick tier), 2 (file-level: 1) seeds per shard and entry in the quick tier, 60 (12) in the thorough tier; every u16 kind tag for the four event decoders and EventRecord::decode_event (each tag with an empty body, a random body and the bodies of two valid events) and every u8 value of the leading tag byte of Cipher, KeyDerivation, Comparison, Secret, SecretMeta, SharedAccess, AeadPack, FileContent, SecretSigner. Non-trivial = the input differs from the unmutated seed and either its first structural bytes (1 byte; 2 for events; 8 for vault/header) are intact or the decoder returned a value. Distinct = distinct case.",
     assumptions: &[
         "a hang is never inferred from wall-clock time: a decoder call that does not answer within 120 s is killed and reported as inconclusive",
         "allocation accounting counts requested heap bytes of the whole worker process (single decode in flight); a single request or a peak above 64 MiB + 16 x input length is a violation, the request itself is refused so that the verdict does not depend on the overcommit policy of the machine",
@@ -153,6 +153,30 @@ pub fn entries() -> Vec<Entry> {
     v.push(rel("decode/Contents", decode_bin::<sos_vault::Contents>, &["seed:Contents"]));
     v.push(rel("decode/fs:EventLogRecord", decode_bin::<sos_filesystem::formats::EventLogRecord>, &["seed:EventRecordBody"]));
     v.push(rel("decode/fs:VaultRecord", decode_bin::<sos_filesystem::formats::VaultRecord>, &["seed:Contents"]));
+    // file-level readers over mutated event-log and vault files
+    let fs = |name: &str, run: fn(&[u8]) -> Result<(), String>, seed: &str, header: usize| Entry {
+        name: name.to_string(),
+        run,
+        seeds: vec![seed.to_string()],
+        wire: false,
+        header,
+        text: false,
+    };
+    v.push(fs("fs/folder_event_log", fs_folder_event_log, "file:folder-event-log", 4));
+    v.push(fs("fs/account_event_log", fs_account_event_log, "file:account-event-log", 6));
+    v.push(fs(
+        "fs/format_stream(event_log)",
+        |b| fs_format_stream::<sos_filesystem::formats::EventLogRecord>(b, &sos_core::constants::FOLDER_EVENT_LOG_IDENTITY, false),
+        "file:folder-event-log",
+        4,
+    ));
+    v.push(fs(
+        "fs/format_stream(vault)",
+        |b| fs_format_stream::<sos_filesystem::formats::VaultRecord>(b, &sos_core::constants::VAULT_IDENTITY, true),
+        "Vault",
+        8,
+    ));
+    v.push(fs("fs/header_files", fs_header_files, "Vault", 8));
     // text entry points
     let tx = |name: &str, run: fn(&[u8]) -> Result<(), String>, seed: &str| Entry {
         name: name.to_string(),
@@ -168,6 +192,151 @@ pub fn entries() -> Vec<Entry> {
     v.push(tx("from_str/CommitHash", from_str_as::<sos_core::commit::CommitHash>, "text:CommitHash"));
     v.push(tx("from_str/ServerPairUrl", from_str_as::<sos_net::pairing::ServerPairUrl>, "text:ServerPairUrl"));
     v
+}
+
+
+// ---------------------------------------------------------------------------
+// file-level entry points (run inside the worker; the input is written to a
+// file in the directory named by SV_CODEC_DIR)
+// ---------------------------------------------------------------------------
+
+fn input_file(b: &[u8]) -> Result<std::path::PathBuf, String> {
+    let dir = std::env::var("SV_CODEC_DIR").unwrap_or_else(|_| std::env::temp_dir().to_string_lossy().to_string());
+    let p = std::path::Path::new(&dir).join(format!("input-{}.bin", std::process::id()));
+    std::fs::write(&p, b).map_err(|e| format!("harness: cannot write input file: {e}"))?;
+    Ok(p)
+}
+
+pub const RUNAWAY: &str = "RUNAWAY-ITERATION";
+
+/// More rows than this cannot come out of `len` bytes (a row is >= 8 bytes).
+fn row_cap(len: usize) -> usize {
+    len / 8 + 16
+}
+
+async fn exercise_log<T>(mut log: sos_filesystem::FileSystemEventLog<T, sos_filesystem::Error>, len: usize) -> Result<(), String>
+where
+    T: Default + binary_stream::futures::Encodable + binary_stream::futures::Decodable + Send + Sync + 'static,
+{
+    use futures::StreamExt;
+    use sos_core::events::EventLog;
+    let cap = row_cap(len);
+    let mut first_err: Option<String> = None;
+    if let Err(e) = log.load_tree().await {
+        first_err.get_or_insert(format!("load_tree: {e}"));
+    }
+    for reverse in [false, true] {
+        let stream = log.record_stream(reverse).await;
+        futures::pin_mut!(stream);
+        let mut n = 0usize;
+        while let Some(item) = stream.next().await {
+            n += 1;
+            if let Err(e) = item {
+                first_err.get_or_insert(format!("record_stream({reverse}): {e}"));
+                break;
+            }
+            if n > cap {
+                return Err(format!("{RUNAWAY}: record_stream(reverse={reverse}) yielded more than {cap} rows from {len} bytes"));
+            }
+        }
+    }
+    match log.diff_records(None).await {
+        Ok(r) if r.len() > cap => return Err(format!("{RUNAWAY}: diff_records(None) returned {} rows from {len} bytes", r.len())),
+        Ok(_) => {}
+        Err(e) => {
+            first_err.get_or_insert(format!("diff_records(None): {e}"));
+        }
+    }
+    let needle = sos_core::commit::CommitHash([7u8; 32]);
+    if let Err(e) = log.diff_records(Some(&needle)).await {
+        first_err.get_or_insert(format!("diff_records(Some): {e}"));
+    }
+    match first_err {
+        None => Ok(()),
+        Some(e) => Err(e),
+    }
+}
+
+fn fs_folder_event_log(b: &[u8]) -> Result<(), String> {
+    let p = input_file(b)?;
+    run(async {
+        let id = sos_core::AccountId::from([1u8; 20]);
+        match sos_filesystem::FolderEventLog::<sos_filesystem::Error>::new_folder(&p, id, sos_core::events::EventLogType::Identity).await {
+            Ok(l) => exercise_log(l, b.len()).await,
+            Err(e) => Err(e.to_string()),
+        }
+    })
+}
+
+fn fs_account_event_log(b: &[u8]) -> Result<(), String> {
+    let p = input_file(b)?;
+    run(async {
+        let id = sos_core::AccountId::from([1u8; 20]);
+        match sos_filesystem::AccountEventLog::<sos_filesystem::Error>::new_account(&p, id).await {
+            Ok(l) => exercise_log(l, b.len()).await,
+            Err(e) => Err(e.to_string()),
+        }
+    })
+}
+
+fn fs_format_stream<T: sos_filesystem::formats::FileItem + Send>(b: &[u8], identity: &'static [u8], vault: bool) -> Result<(), String> {
+    use sos_filesystem::formats::{FormatStream, FormatStreamIterator};
+    let p = input_file(b)?;
+    let cap = row_cap(b.len());
+    run(async {
+        let mut first_err: Option<String> = None;
+        let offset = if vault {
+            match sos_vault::Header::read_content_offset(&p).await {
+                Ok(o) => Some(o),
+                Err(e) => return Err(format!("read_content_offset: {e}")),
+            }
+        } else {
+            None
+        };
+        for reverse in [false, true] {
+            let file = match sos_vfs::File::open(&p).await {
+                Ok(f) => f,
+                Err(e) => return Err(format!("harness: open: {e}")),
+            };
+            let mut it = match FormatStream::<T, sos_vfs::File>::new_file(file, identity, true, offset, reverse).await {
+                Ok(i) => i,
+                Err(e) => {
+                    first_err.get_or_insert(format!("new_file: {e}"));
+                    continue;
+                }
+            };
+            let mut n = 0usize;
+            loop {
+                match it.next().await {
+                    Ok(Some(_)) => {
+                        n += 1;
+                        if n > cap {
+                            return Err(format!("{RUNAWAY}: FormatStream(reverse={reverse}) yielded more than {cap} rows from {} bytes", b.len()));
+                        }
+                    }
+                    Ok(None) => break,
+                    Err(e) => {
+                        first_err.get_or_insert(format!("next(reverse={reverse}): {e}"));
+                        break;
+                    }
+                }
+            }
+        }
+        match first_err {
+            None => Ok(()),
+            Some(e) => Err(e),
+        }
+    })
+}
+
+fn fs_header_files(b: &[u8]) -> Result<(), String> {
+    let p = input_file(b)?;
+    run(async {
+        let a = sos_vault::Header::read_summary_file(&p).await.map(|_| ()).map_err(|e| format!("read_summary_file: {e}"));
+        let h = sos_vault::Header::read_header_file(&p).await.map(|_| ()).map_err(|e| format!("read_header_file: {e}"));
+        let c = sos_vault::Header::read_content_offset(&p).await.map(|_| ()).map_err(|e| format!("read_content_offset: {e}"));
+        a.and(h).and(c)
+    })
 }
 
 /// Seed bytes for a seed label (registry type label or a special `seed:`/`text:` label).
@@ -197,6 +366,26 @@ pub fn seed_bytes(all: &[TypeDef], label: &str, entropy: &[u8]) -> Option<Vec<u8
             // an event log row without its leading length: [time][last][commit]...
             let r = g_event_record(&mut u);
             run(sos_core::encode(&r)).ok().map(|b| b[4..].to_vec())
+        }
+        "file:folder-event-log" | "file:account-event-log" => {
+            let account = label == "file:account-event-log";
+            let mut out = if account {
+                let mut h = sos_core::constants::ACCOUNT_EVENT_LOG_IDENTITY.to_vec();
+                h.extend_from_slice(&sos_core::encoding::VERSION.to_le_bytes());
+                h
+            } else {
+                sos_core::constants::FOLDER_EVENT_LOG_IDENTITY.to_vec()
+            };
+            let n = match u.below(8) {
+                0 => 0,
+                7 => 20,
+                k => k,
+            };
+            for _ in 0..n {
+                let r = g_event_record_of(&mut u, if account { 1 } else { 0 });
+                out.extend_from_slice(&run(sos_core::encode(&r)).ok()?);
+            }
+            Some(out)
         }
         "text:AccountId" => Some(g_account_id(&mut u).to_string().into_bytes()),
         "text:ExternalFile" => Some(g_external_file(&mut u).to_string().into_bytes()),
@@ -310,10 +499,6 @@ pub fn worker_main() -> i32 {
     let stdin = std::io::stdin();
     let mut stdin = stdin.lock();
     let mut out = std::io::stdout();
-    // warm up (thread pool, lazy statics) outside the guard
-    for e in &entries {
-        let _ = std::panic::catch_unwind(|| (e.run)(&[]));
-    }
     PANICS.store(0, Ordering::SeqCst);
     while let Some(req) = read_frame(&mut stdin) {
         if req.len() < 2 {
@@ -382,6 +567,7 @@ impl Client {
         let exe = std::env::current_exe()?;
         let mut child = std::process::Command::new(exe)
             .arg("codec-worker")
+            .env("SV_CODEC_DIR", work_dir())
             .stdin(std::process::Stdio::piped())
             .stdout(std::process::Stdio::piped())
             .stderr(std::process::Stdio::null())
@@ -420,6 +606,16 @@ impl Client {
 }
 
 static CLIENT: Mutex<Option<Client>> = Mutex::new(None);
+static WORK_DIR: Mutex<Option<tempfile::TempDir>> = Mutex::new(None);
+
+/// Directory for the input files of file-level entry points (removed by `shutdown_client`).
+fn work_dir() -> std::path::PathBuf {
+    let mut g = WORK_DIR.lock().unwrap_or_else(|p| p.into_inner());
+    if g.is_none() {
+        *g = tempfile::Builder::new().prefix("sv-codec-").tempdir().ok();
+    }
+    g.as_ref().map(|d| d.path().to_path_buf()).unwrap_or_else(std::env::temp_dir)
+}
 /// Notes produced by the client (hangs, unconfirmed deaths); drained into the report.
 static NOTES: Mutex<Vec<String>> = Mutex::new(Vec::new());
 pub const CALL_TIMEOUT_S: u64 = 120;
@@ -502,6 +698,9 @@ pub fn exec(idx: usize, bytes: &[u8]) -> Outcome {
 }
 
 pub fn shutdown_client() {
+    if let Ok(mut g) = WORK_DIR.lock() {
+        g.take();
+    }
     if let Ok(mut g) = CLIENT.lock() {
         if let Some(c) = g.take() {
             drop(c.stdin);
@@ -645,8 +844,6 @@ pub struct FuzzCase {
     pub other_seed: String,
     pub other_entropy: Vec<u8>,
     pub mutations: Vec<Mutation>,
-    /// also decode every proper prefix of the unmutated seed (seeds <= 2 KiB)
-    pub truncate_all: bool,
     /// short random input used instead of a seed
     pub raw: Vec<u8>,
 }
@@ -660,13 +857,12 @@ fn case_strategy(entry: String, seeds: Vec<String>, all_seeds: Vec<String>) -> i
         0..m,
         entropy_strategy(),
         proptest::collection::vec(mutation_strategy(), 0..4),
-        prop::bool::weighted(0.03),
         prop_oneof![
             9 => Just(None),
             1 => proptest::collection::vec(any::<u8>(), 0..65).prop_map(Some),
         ],
     )
-        .prop_map(move |(i, entropy, j, other_entropy, mutations, truncate_all, raw)| match raw {
+        .prop_map(move |(i, entropy, j, other_entropy, mutations, raw)| match raw {
             Some(raw) => FuzzCase {
                 entry: entry.clone(),
                 seed: String::new(),
@@ -674,7 +870,6 @@ fn case_strategy(entry: String, seeds: Vec<String>, all_seeds: Vec<String>) -> i
                 other_seed: String::new(),
                 other_entropy: vec![],
                 mutations: vec![],
-                truncate_all: false,
                 raw,
             },
             None => {
@@ -686,7 +881,6 @@ fn case_strategy(entry: String, seeds: Vec<String>, all_seeds: Vec<String>) -> i
                     other_seed: if uses_other { all_seeds[j].clone() } else { String::new() },
                     other_entropy: if uses_other { other_entropy } else { vec![] },
                     mutations,
-                    truncate_all,
                     raw: vec![],
                 }
             }
@@ -724,6 +918,10 @@ pub fn judge(entry: &Entry, input: &[u8], o: &Outcome, info: &mut CaseInfo) -> C
             info.class("outcome:value");
             Ok(())
         }
+        Outcome::Error(e) if e.starts_with(RUNAWAY) => Err(Failure::new(
+            format!("runaway-iteration/{}", name),
+            format!("{}: {}; {}", name, e, show()),
+        )),
         Outcome::Error(_) => {
             info.class("outcome:error");
             Ok(())
@@ -733,7 +931,11 @@ pub fn judge(entry: &Entry, input: &[u8], o: &Outcome, info: &mut CaseInfo) -> C
             let _ = msg;
             Ok(())
         }
-        Outcome::Contained { site, msg } | Outcome::Panic { site, msg } => Err(Failure::new(
+        Outcome::Contained { site, msg } => Err(Failure::new(
+            format!("task-panic/{}/{}", name, site),
+            format!("{} returned normally but a panic was raised (and swallowed by a spawned task) at {}: {}; {}", name, site, msg, show()),
+        )),
+        Outcome::Panic { site, msg } => Err(Failure::new(
             format!("decode-panic/{}/{}", name, site),
             format!("{} panicked at {}: {}; {}", name, site, msg, show()),
         )),
@@ -816,19 +1018,105 @@ pub fn check(ctx: &Ctx, c: &FuzzCase) -> (CaseInfo, CheckResult) {
     if let Err(f) = judge(entry, &input, &o, &mut info) {
         return (info, Err(f));
     }
-    if c.truncate_all && !seed.is_empty() && seed.len() <= 2048 {
-        info.class("exhaustive-truncation");
+    (info, Ok(()))
+}
+
+// ---------------------------------------------------------------------------
+// exhaustive truncation of valid encodings
+// ---------------------------------------------------------------------------
+
+#[derive(Clone, Debug, Serialize, Deserialize)]
+pub struct TruncCase {
+    pub entry: String,
+    pub seed: String,
+    pub entropy: Vec<u8>,
+    /// `None`: every proper prefix; `Some(k)`: only the prefix of length k
+    pub prefix: Option<usize>,
+}
+
+pub fn check_trunc(ctx: &Ctx, c: &TruncCase, mut each: impl FnMut(usize, &CaseInfo, &CheckResult) -> bool) {
+    let Some((idx, entry)) = ctx.entry(&c.entry) else {
+        return;
+    };
+    let Some(seed) = seed_bytes(&ctx.types, &c.seed, &c.entropy) else {
+        return;
+    };
+    let range = match c.prefix {
+        Some(k) => k.min(seed.len())..k.min(seed.len()) + 1,
+        None => 0..seed.len(),
+    };
+    for k in range {
+        let mut info = CaseInfo::default();
         info.nontrivial = true;
-        for k in 0..seed.len() {
-            let o = exec(idx, &seed[..k]);
-            info.inner_evals += 1;
-            if let Err(mut f) = judge(entry, &seed[..k], &o, &mut info) {
-                f.message = format!("[prefix of length {} of a valid {}-byte encoding] {}", k, seed.len(), f.message);
-                return (info, Err(f));
+        info.inner_evals = 1;
+        info.class(format!("entry:{}", entry.name));
+        info.class("input:prefix-of-valid-encoding");
+        let o = exec(idx, &seed[..k]);
+        let r = judge(entry, &seed[..k], &o, &mut info).map_err(|mut f| {
+            f.message = format!("[prefix of length {} of a valid {}-byte {} encoding] {}", k, seed.len(), c.seed, f.message);
+            f
+        });
+        if !each(k, &info, &r) {
+            break;
+        }
+    }
+}
+
+fn run_truncations(ctx: &Ctx, shard: &Shard, rep: &mut Report, only: Option<&str>) {
+    for e in &ctx.entries {
+        if let Some(o) = only {
+            if !e.name.starts_with(o) {
+                continue;
+            }
+        }
+        let fs = e.name.starts_with("fs/");
+        // seeds per shard and size limit (file-level readers cost milliseconds per call)
+        let (per_shard, limit) = match (shard.tier, fs) {
+            (Tier::Quick, false) => (2usize, 2048usize),
+            (Tier::Quick, true) => (1, 768),
+            (Tier::Thorough, false) => (60, 2048),
+            (Tier::Thorough, true) => (12, 2048),
+        };
+        let sub = format!("truncate/{}", e.name);
+        let mut seen = std::collections::HashSet::new();
+        for k in 0..per_shard {
+            // draw entropy until the encoding is non-empty and within the limit
+            let mut chosen = None;
+            for attempt in 0..8 {
+                let entropy = sample_one(shard, &format!("{sub}#{k}#{attempt}"), &entropy_strategy());
+                let label = &e.seeds[(k + attempt + shard.index as usize) % e.seeds.len()];
+                match seed_bytes(&ctx.types, label, &entropy) {
+                    Some(b) if !b.is_empty() && b.len() <= limit => {
+                        chosen = Some((label.clone(), entropy));
+                        break;
+                    }
+                    _ => {}
+                }
+            }
+            let Some((label, entropy)) = chosen else {
+                continue;
+            };
+            let case = TruncCase { entry: e.name.clone(), seed: label, entropy, prefix: None };
+            let mut failures: Vec<(usize, Failure)> = vec![];
+            check_trunc(ctx, &case, |p, info, r| {
+                rep.record_case(&sub, hash_of(&(&case.entry, &case.seed, &case.entropy, p)), info);
+                match r {
+                    Ok(()) => true,
+                    Err(f) => {
+                        let known = shard.is_known(&f.signature);
+                        failures.push((p, f.clone()));
+                        // continue behind known findings, stop this seed at a new one
+                        known
+                    }
+                }
+            });
+            for (p, f) in failures {
+                let mut c = case.clone();
+                c.prefix = Some(p);
+                record_enumerated(shard, rep, &sub, serde_json::to_value(&c).unwrap_or(Value::Null), f, &mut seen);
             }
         }
     }
-    (info, Ok(()))
 }
 
 // ---------------------------------------------------------------------------
@@ -949,12 +1237,37 @@ fn run_shard(shard: &Shard, rep: &mut Report) {
     let ctx = Ctx::new();
     let per_entry = shard.tier.pick(3_200u64, 230_000);
     let all_seed_labels: Vec<String> = ctx.types.iter().filter(|t| t.format != Format::Db).map(|t| t.label()).collect();
+    // debugging aid: VERIF_C15_ONLY=<prefix> restricts the run to matching sub-checks
+    let only = std::env::var("VERIF_C15_ONLY").ok();
+    let timing = std::env::var("VERIF_C15_TIMING").is_ok();
     for e in &ctx.entries {
+        if let Some(o) = &only {
+            if !e.name.starts_with(o.as_str()) {
+                continue;
+            }
+        }
+        let t0 = std::time::Instant::now();
         let others = if e.text { e.seeds.clone() } else { all_seed_labels.clone() };
         let strategy = case_strategy(e.name.clone(), e.seeds.clone(), others);
         drive(shard, rep, &e.name, shard.share(per_entry), strategy, |c| check(&ctx, c));
+        if timing && shard.index == 0 {
+            eprintln!("[timing] {} {:.2}s", e.name, t0.elapsed().as_secs_f64());
+        }
     }
-    run_tag_spaces(&ctx, shard, rep);
+    {
+        let t0 = std::time::Instant::now();
+        run_truncations(&ctx, shard, rep, only.as_deref());
+        if timing && shard.index == 0 {
+            eprintln!("[timing] truncations {:.2}s", t0.elapsed().as_secs_f64());
+        }
+    }
+    if only.is_none() || only.as_deref() == Some("tags") {
+        let t0 = std::time::Instant::now();
+        run_tag_spaces(&ctx, shard, rep);
+        if timing && shard.index == 0 {
+            eprintln!("[timing] tag spaces {:.2}s", t0.elapsed().as_secs_f64());
+        }
+    }
     shutdown_client();
     if let Ok(mut n) = NOTES.lock() {
         for s in n.drain(..) {
@@ -965,7 +1278,23 @@ fn run_shard(shard: &Shard, rep: &mut Report) {
 
 fn replay(_shard: &Shard, sub: &str, case: &Value) -> CheckResult {
     let ctx = Ctx::new();
-    let r = if sub.starts_with("tags-") {
+    let r = if sub.starts_with("truncate/") {
+        match from_case::<TruncCase>(case) {
+            Ok(c) => {
+                let mut out = Ok(());
+                check_trunc(&ctx, &c, |_, _, r| {
+                    if let Err(f) = r {
+                        out = Err(f.clone());
+                        false
+                    } else {
+                        true
+                    }
+                });
+                out
+            }
+            Err(e) => Err(Failure::new("harness", e)),
+        }
+    } else if sub.starts_with("tags-") {
         match from_case::<TagCase>(case) {
             Ok(c) => check_tag(&ctx, &c).1,
             Err(e) => Err(Failure::new("harness", e)),
